@@ -76,8 +76,8 @@ CLAIMED = {
    'Lease.tla models DefinedLease.is_request_allowed, send_request, the bounded request queue and handle_lease, one action per critical section (Request, LeaseArrives incl. the release loop, Tick); TLC checks the C14 clauses over every interleaving of requests, LEASE frames and time (unbounded and bounded queue), and both complete state graphs (41,523 transitions) are replayed through the public request API, the real handle_lease coroutine and a patched clock, comparing send queue, request queue and refused calls after every step. Lease monitor of RSocket.tla on recorded runs of a lease-honouring client against a real server with a scripted lease publisher under virtual time: no request before the first LEASE, at most the granted count per lease, none after the ttl, FIFO release, each request sent at most once, LEASE frames carry exactly the published count and ttl in ms.',
    CONN_NOTE, 'DESIGN 6/C14', 'conn'),
  'C15': ('model_checking',
-   'TLC trace validation of recorded executions of the real endpoints against RSocket.tla (+ design-level TLC model checking of the same monitors)',
-   'Keep-alive monitor under a virtual clock: a real client against a scripted server with acknowledgement patterns always / never / until t / only after t / delayed (delays just below and above the lifetime), periods and lifetimes from 50 ms to 10 min including lifetime < period; both endpoints real for the echo clauses (exactly one echo, same data, flag cleared, none without the flag).',
+   'TLC model checking of KeepAlive.tla (keep-alive sender, watchdog, echo, aftermath of a time-out, under a clock) with every transition of its state graphs replayed on a real client under virtual time; TLC trace validation of recorded executions of the real endpoints against RSocket.tla',
+   'KeepAlive.tla models _keepalive_send_task, _keepalive_timeout_task, handle_keep_alive and the alive-tests of the sender and receiver loops; TLC checks no false time-out, detection within two lifetimes, periodic sending, exactly one echo and none without the flag for period <, >, = lifetime; every transition of the graphs is replayed on a real RSocketClient over the simulated link (Tick = advance virtual time, PeerKa = KEEPALIVE from a scripted server), comparing written keep-alives, echoes, time-out and close callbacks and the reported gaps. Keep-alive monitor under a virtual clock: a real client against a scripted server with acknowledgement patterns always / never / until t / only after t / delayed (delays just below and above the lifetime), periods and lifetimes from 50 ms to 10 min including lifetime < period; both endpoints real for the echo clauses (exactly one echo, same data, flag cleared, none without the flag).',
    CONN_NOTE, 'DESIGN 6/C15', 'conn'),
  'C16': ('model_checking',
    'TLC trace validation of recorded executions of the real endpoints against RSocket.tla (+ design-level TLC model checking of the same monitors)',
